@@ -415,12 +415,299 @@ def gen_c07_scans(ctx):
     scan(ctx, P, 'droop/rules/*.py', 'no-tie-ordered-select', 'no rule selects candidates in tie order outside breakTie', not sel, detail=str(sel))
 
 
+# --------------------------------------------------------------------------------------------- C18 / C19 record
+def _func_src(repo, q):
+    f = repo.resolve(q)
+    return f, (ast.unparse(f.node) if f is not None else '')
+
+
+def gen_c19_scans(ctx):
+    repo = ctx.repo
+    P = ['C19']
+    f, _ = _func_src(repo, 'droop.record.ElectionRecord.action')
+    ok = False
+    detail = ''
+    if f is not None:
+        # every append of A to self['actions'] is the last thing done with A on its path
+        appends = []
+        for blk in ast.walk(f.node):
+            body = getattr(blk, 'body', None)
+            if not isinstance(body, list):
+                continue
+            for i, st_ in enumerate(body):
+                if isinstance(st_, ast.Expr) and norm_src(st_.value) == "self['actions'].append(A)":
+                    nxt = body[i + 1] if i + 1 < len(body) else None
+                    appends.append(nxt is None or isinstance(nxt, ast.Return))
+        ok = len(appends) >= 1 and all(appends)
+        detail = 'appends followed by return/end: %s' % appends
+    scan(ctx, P, 'droop.record.ElectionRecord.action', 'complete-before-append',
+         'an action dictionary is appended to the record only when it is complete (append is the last step on its path)', ok, detail)
+    # 'actions' is only ever appended to
+    bad = []
+    for mn, m in repo.modules.items():
+        for n in ast.walk(m.tree):
+            src = None
+            if isinstance(n, (ast.Assign, ast.AugAssign, ast.Delete)):
+                tg = n.targets if isinstance(n, (ast.Assign, ast.Delete)) else [n.target]
+                for t in tg:
+                    if "['actions']" in norm_src(t) and not (mn == 'droop.record' and norm_src(n) == "self['actions'] = list()"):
+                        bad.append('%s:%d %s' % (mn, n.lineno, norm_src(n)[:60]))
+            if isinstance(n, ast.Call) and isinstance(n.func, ast.Attribute) and "['actions']" in norm_src(n.func.value) \
+                    and n.func.attr != 'append':
+                bad.append('%s:%d .%s()' % (mn, n.lineno, n.func.attr))
+    scan(ctx, P, 'droop/**/*.py', 'actions-append-only', "record['actions'] is created once and only ever appended to (so an interrupted record is a prefix)",
+         not bad, '; '.join(bad))
+    # determinism of count(): no clock, randomness, environment or I/O in the counting path
+    bad = []
+    for mn, m in repo.modules.items():
+        if mn in ('Droop',):
+            continue
+        for n in ast.walk(m.tree):
+            if isinstance(n, (ast.Import, ast.ImportFrom)):
+                mods = [a.name for a in n.names] if isinstance(n, ast.Import) else [n.module or '']
+                for x in mods:
+                    if x.split('.')[0] in ('time', 'random', 'datetime', 'os', 'socket', 'threading', 'secrets', 'uuid'):
+                        bad.append('%s imports %s' % (mn, x))
+    scan(ctx, P + ['C20'], 'droop/**/*.py', 'deterministic', 'the package imports no clock, randomness, environment or threading module', not bad, '; '.join(bad))
+    # CLI: a KeyboardInterrupt during the count leads to the renderers being called with intr=True
+    f, src = _func_src(repo, 'Droop.main')
+    ok = f is not None and 'except KeyboardInterrupt:' in src and 'intr = True' in src and 'E.report(intr)' in src and \
+        'E.dump(intr)' in src and 'E.json(intr)' in src
+    scan(ctx, P, 'Droop.main', 'cli-intr', 'the command-line driver catches KeyboardInterrupt around the count and passes intr to report/dump/json', ok)
+    # record.report / dump fill the header on demand
+    for q in ('droop.record.ElectionRecord.report', 'droop.record.ElectionRecord.dump'):
+        f, src = _func_src(repo, q)
+        okf = False
+        if f is not None:
+            first = [s_ for s_ in f.node.body if not (isinstance(s_, ast.Expr) and isinstance(s_.value, ast.Constant))]
+            # the fill must precede the first read of a header key
+            txt = [norm_src(s_) for s_ in first]
+            idx_fill = next((i for i, t in enumerate(txt) if 'self._fill()' in t and 'not self.filled' in t), None)
+            idx_read = next((i for i, t in enumerate(txt) if "self['" in t and "self['actions']" not in t and '_fill' not in t), None)
+            okf = idx_fill is not None and (idx_read is None or idx_fill < idx_read)
+        scan(ctx, P, q, 'header-on-demand', 'the record header is filled before any header key is read (renderable at every interruption point)', okf)
+
+
+def gen_c18_scans(ctx):
+    repo = ctx.repo
+    P = ['C18']
+    # keys read from actions / candidate states by the renderers are keys written by action() / as_dict / the rule hooks
+    reads, writes = {}, set()
+    for mn in ('droop.record', 'droop.rules.electionmethods', 'droop.rules.qpq', 'droop.rules.mpls', 'droop.candidate', 'droop.candidates'):
+        m = repo.module(mn)
+        for n in ast.walk(m.tree):
+            if isinstance(n, ast.Subscript) and isinstance(n.slice, ast.Constant) and isinstance(n.slice.value, str):
+                base = norm_src(n.value)
+                key = n.slice.value
+                if isinstance(n.ctx, ast.Store):
+                    writes.add(key)
+                elif base in ('A', 'action', 'cstate', 'cstate[cid]', "A['cstate'][cid]") or base.startswith('cstate['):
+                    reads.setdefault(key, []).append('%s:%d' % (mn, n.lineno))
+            if isinstance(n, ast.Call) and isinstance(n.func, ast.Name) and n.func.id == 'dict':
+                for k in n.keywords:
+                    if k.arg:
+                        writes.add(k.arg)
+    missing = {k: v for k, v in reads.items() if k not in writes}
+    scan(ctx, P, 'droop/record.py + hooks', 'key-safety', 'every key the renderers read from an action or a candidate state is written by action()/as_dict()/the rule hooks',
+         not missing, 'read but never written: %s' % missing)
+    # Election.count: 'end' is the last action; afterwards only the result lists are taken and postCheck runs
+    f, _ = _func_src(repo, 'droop.election.Election.count')
+    ok = False
+    if f is not None:
+        body = [norm_src(s_) for s_ in f.node.body if not (isinstance(s_, ast.Expr) and isinstance(s_.value, ast.Constant))]
+        try:
+            i_cnt = body.index('self.rule.count()')
+            i_end = body.index("self.logAction('end', 'Count Complete')")
+            tail = body[i_end + 1:]
+            ok = i_cnt < i_end and tail == ['self.elected = self.C.elected()', 'self.defeated = self.C.defeated()',
+                                            'self.withdrawn = self.C.withdrawn()', 'self.postCheck()']
+        except ValueError:
+            ok = False
+    scan(ctx, P, 'droop.election.Election.count', 'end-last', "the 'end' action is logged after rule.count() and nothing but taking the result lists follows", ok)
+    # every rule's first state-bearing action is begin (mpls: count, after the first round)
+    for mn in RULE_MODULES:
+        f = repo.resolve(mn + '.Rule.count')
+        first = None
+        if f is not None:
+            calls = []
+            for n in ast.walk(f.node):
+                if isinstance(n, ast.Call) and isinstance(n.func, ast.Attribute) and n.func.attr == 'logAction' and n.args and \
+                        isinstance(n.args[0], ast.Constant):
+                    calls.append((n.lineno, n.args[0].value))
+            calls.sort()
+            calls = [c for c in calls if c[1] != 'tie']
+            first = calls[0][1] if calls else None
+        want = 'count' if mn.endswith('mpls') else 'begin'
+        scan(ctx, P, mn + '.Rule.count', 'begins-with-begin', "the first action logged by the rule is '%s'" % want, first == want, str(first))
+    # the JSON rendering only ever sees JSON-able values plus the arithmetic classes handled by the encoder
+    f, src = _func_src(repo, 'droop.record.ElectionRecord.json')
+    ok = f is not None and 'json_.dumps(self, cls=ValueEncoder, sort_keys=True, indent=2)' in src
+    scan(ctx, P, 'droop.record.ElectionRecord.json', 'json-dumps', 'the JSON rendering is json.dumps of the record itself with the value encoder', ok)
+    # the dump writes one row per action
+    f, src = _func_src(repo, 'droop.record.ElectionRecord.dump')
+    ok = f is not None and "for A in self['actions']:" in src and "dumps.append('\\t'.join(r) + '\\n')" in src
+    scan(ctx, P, 'droop.record.ElectionRecord.dump', 'row-per-action', 'the dump has exactly one row per recorded action', ok)
+
+
+# --------------------------------------------------------------------------------------------- C10 / C11
+ACCUMULATORS = {'vote', 'exhausted', 'residual', 'tc', 'tx', 'va'}
+
+
+def ballot_loops(fn):
+    "for-loops / generator expressions whose iterable mentions E.ballots or E.ballotsEqual"
+    out = []
+    for n in ast.walk(fn.node):
+        if isinstance(n, ast.For) and 'E.ballots' in norm_src(n.iter):
+            out.append(n)
+    return out
+
+
+def gen_c10_scans(ctx):
+    repo = ctx.repo
+    P = ['C10']
+    nloops = 0
+    for mn in RULE_MODULES:
+        m = repo.module(mn)
+        bad = []
+        for fn in [f for f in repo.all_functions() if f.module is m]:
+            for loop in ballot_loops(fn):
+                nloops += 1
+                bvar = loop.target.id if isinstance(loop.target, ast.Name) else None
+                for n in ast.walk(ast.Module(body=loop.body, type_ignores=[])):
+                    if isinstance(n, ast.Assign):
+                        for t in n.targets:
+                            src = norm_src(t)
+                            if isinstance(t, ast.Attribute) and not src.startswith(bvar + '.'):
+                                bad.append('%s:%d plain assignment to %s inside a ballot sweep' % (mn, n.lineno, src))
+                    if isinstance(n, ast.AugAssign) and isinstance(n.target, ast.Attribute):
+                        src = norm_src(n.target)
+                        if not src.startswith(bvar + '.') and (n.target.attr not in ACCUMULATORS or not isinstance(n.op, (ast.Add, ast.Sub))):
+                            bad.append('%s:%d non-additive update of %s' % (mn, n.lineno, src))
+        scan(ctx, P, mn, 'sweeps-commute',
+             'inside every sweep over the ballots, state other than the ballot itself is updated only by += / -= on exact sums (so the order of ballot lines is irrelevant)',
+             not bad, '; '.join(bad))
+    scan(ctx, P, 'droop/rules/*.py', 'sweeps-found', 'ballot sweeps were found and examined (vacuity guard)', nloops >= 20, 'loops=%d' % nloops)
+    # no rule reads a ballot's position, the number of ballot lines or the source line number
+    bad = []
+    for mn in RULE_MODULES + ['droop.election']:
+        m = repo.module(mn)
+        for n in ast.walk(m.tree):
+            src = norm_src(n) if isinstance(n, (ast.Call, ast.Attribute, ast.Subscript)) else ''
+            if isinstance(n, ast.Call) and isinstance(n.func, ast.Name) and n.func.id in ('enumerate', 'len') and \
+                    n.args and re.search(r'\bballots(Equal)?\b', norm_src(n.args[0])):
+                bad.append('%s:%d %s' % (mn, n.lineno, src[:50]))
+            if isinstance(n, ast.Subscript) and re.search(r'\bE\.ballots(Equal)?$|self\.ballots(Equal)?$', norm_src(n.value)):
+                bad.append('%s:%d %s' % (mn, n.lineno, src[:50]))
+            if isinstance(n, ast.Attribute) and n.attr == 'line' and mn != 'droop.profile':
+                bad.append('%s:%d .line' % (mn, n.lineno))
+    scan(ctx, P, 'droop/rules/*.py', 'no-order-leak', 'no rule reads a ballot\'s position, the number of ballot lines or the source line number', not bad, '; '.join(bad))
+    # re-weighting depends on the weight, never on the multiplier (splitting a multiplier cannot change a weight)
+    bad = []
+    for mn in RULE_MODULES:
+        m = repo.module(mn)
+        for n in ast.walk(m.tree):
+            if isinstance(n, ast.Assign) and any(isinstance(t, ast.Attribute) and t.attr == 'weight' for t in n.targets):
+                if 'multiplier' in norm_src(n.value):
+                    bad.append('%s:%d %s' % (mn, n.lineno, norm_src(n)[:70]))
+    scan(ctx, P, 'droop/rules/*.py', 'weight-independent-of-multiplier', 'a ballot\'s new weight never depends on its multiplier', not bad, '; '.join(bad))
+
+
+def gen_c11_scans(ctx):
+    repo = ctx.repo
+    P = ['C11']
+    # candidates are never ordered by id: sort keys are vote / ballot order / tie order only
+    bad = []
+    for mn in RULE_MODULES + ['droop.candidates', 'droop.election']:
+        m = repo.module(mn)
+        for n in ast.walk(m.tree):
+            if isinstance(n, ast.Call) and isinstance(n.func, ast.Name) and n.func.id in ('sorted', 'min', 'max'):
+                for k in n.keywords:
+                    if k.arg == 'key' and 'cid' in norm_src(k.value):
+                        bad.append('%s:%d %s' % (mn, n.lineno, norm_src(n)[:60]))
+            if isinstance(n, ast.Compare) and any('.cid' in norm_src(x) for x in [n.left] + n.comparators) and \
+                    any(isinstance(op, (ast.Lt, ast.Gt, ast.LtE, ast.GtE)) for op in n.ops):
+                bad.append('%s:%d ordering comparison on cid' % (mn, n.lineno))
+    scan(ctx, P, 'droop/rules/*.py', 'no-id-order', 'candidate ids are compared for equality only, never ordered', not bad, '; '.join(bad))
+    f, src = _func_src(repo, 'droop.candidate.Candidate.__init__')
+    scan(ctx, P, 'droop.candidate.Candidate.__init__', 'withdrawn-state', "a withdrawn candidate starts in state 'withdrawn' (never hopeful)",
+         f is not None and "self.state = 'withdrawn' if isWithdrawn else 'hopeful'" in src)
+    f, src = _func_src(repo, 'droop.profile.ElectionProfile.BallotLine.__init__')
+    scan(ctx, P, 'droop.profile.ElectionProfile.BallotLine.__init__', 'strip-withdrawn', 'withdrawn candidates are removed from every rank when a ballot line is stored',
+         f is not None and 'cid in profile.withdrawn' in src and 'rank.remove(cid)' in src)
+
+
+# --------------------------------------------------------------------------------------------- C03 statutory clauses
+def gen_c03_scans(ctx):
+    repo = ctx.repo
+    P = ['C03']
+    want = {
+        'droop.rules.wigm_prf': ('b.weight * surplus / high_candidate.vote', 'PRF B.3: weight times surplus, then divided by the total vote, truncating each'),
+        'droop.rules.scotland': ("V.muldiv(b.weight, surplus, high_candidate.vote, round='down')", 'Scottish 48(3): A/B with one truncation'),
+        'droop.rules.mpls': ('b.weight * surplus / high_candidate.vote', 'Minneapolis transfer value as implemented (golden files)'),
+        'droop.rules.cfer': ('b.weight * surplus / c.vote', 'CfER (g)(2) as implemented (golden files)'),
+    }
+    for mn, (expr, what) in want.items():
+        m = repo.module(mn)
+        found = []
+        for n in ast.walk(m.tree):
+            if isinstance(n, ast.Assign) and any(isinstance(t, ast.Attribute) and t.attr == 'weight' and norm_src(t) == 'b.weight' for t in n.targets):
+                found.append(norm_src(n.value))
+        scan(ctx, P, mn, 'transfer-value-formula', 'the transfer value is computed as the clause words it: %s' % what, found == [expr], str(found))
+    f, src = _func_src(repo, 'droop.rules.meek_prf.Rule.count')
+    ok = f is not None and "V.mul(b.weight, c.kf, round='up')" in src and "V.div(V.mul(c.kf, E.quota, round='up'), c.vote, round='up')" in src
+    scan(ctx, P, 'droop.rules.meek_prf.Rule.count', 'round-up-placements', 'PRF Meek B.2.a / B.2.f: keep value and keep factor are rounded up', ok)
+
+
+# --------------------------------------------------------------------------------------------- C08
+def gen_c08_scans(ctx):
+    repo = ctx.repo
+    P = ['C08']
+    f = repo.resolve('droop.rules.meek.Rule.count.<locals>.iterate')
+    ok = ok_stable = False
+    if f is not None:
+        for n in ast.walk(f.node):
+            if isinstance(n, ast.If):
+                t = norm_src(n.test)
+                body = [norm_src(x) for x in n.body]
+                if t == 'E.surplus <= self.omega' and body == ['return (IS_omega, None)']:
+                    ok = True
+                if t == 'E.surplus >= lastsurplus' and len(body) == 2 and body[0].startswith("E.log('Stable state detected") \
+                        and body[1] == 'return (IS_stable, None)':
+                    ok_stable = True
+        rets = [norm_src(n.value) for n in ast.walk(f.node) if isinstance(n, ast.Return) and n.value is not None]
+        only = set(rets) <= {'(IS_elected, None)', '(IS_omega, None)', '(IS_stable, None)', '(IS_batch, batch)'}
+    else:
+        only = False
+    scan(ctx, P, 'droop.rules.meek.Rule.count.<locals>.iterate', 'exit-omega', "iterate() returns 'omega' only under the test surplus <= omega", ok)
+    scan(ctx, P, 'droop.rules.meek.Rule.count.<locals>.iterate', 'exit-stable', "iterate() returns 'stable' only when the surplus stopped decreasing, after logging it", ok_stable)
+    scan(ctx, P, 'droop.rules.meek.Rule.count.<locals>.iterate', 'exit-statuses', 'iterate() ends only as elected / omega / stable / batch', only)
+    f = repo.resolve('droop.rules.meek.Rule.count')
+    ok2 = False
+    if f is not None:
+        for n in ast.walk(f.node):
+            if isinstance(n, ast.While):
+                body = n.body
+                for i, st_ in enumerate(body):
+                    if isinstance(st_, ast.If) and norm_src(st_.test) == 'iterationStatus == IS_elected' and \
+                            [norm_src(x) for x in st_.body] == ['continue']:
+                        # no defeat before this test inside the loop body
+                        before = ast.Module(body=body[:i], type_ignores=[])
+                        ok2 = not any(isinstance(c, ast.Call) and isinstance(c.func, ast.Attribute) and c.func.attr == 'defeat' for c in ast.walk(before))
+    scan(ctx, P, 'droop.rules.meek.Rule.count', 'defeat-after-iteration', 'exclusions happen only after the iteration ended without electing anybody (omega / stable / batch)', ok2)
+
+
 GENERATORS = {
     'C12': [gen_c12_scans],
     'C13': [gen_c13_scans],
     'C14': [gen_c14_scans],
     'C17': [gen_c17_scans],
     'C09': [gen_c09_scans],
+    'C18': [gen_c18_scans],
+    'C19': [gen_c19_scans],
+    'C10': [gen_c10_scans],
+    'C11': [gen_c11_scans],
+    'C03': [gen_c03_scans],
+    'C08': [gen_c08_scans],
     'C07': [gen_c07_scans],
     'C06': [gen_c09_scans],
     'C02': [gen_c09_scans],
